@@ -628,7 +628,7 @@ fn trial_inner(
             return Ok(());
         }
     };
-    let desc = match guarded(|| cg.apply_pending_commit()) {
+    let desc = match guarded(|| cg.apply_pending_alt()) {
         Ok(Ok(d)) => d,
         Ok(Err(e)) => {
             w.violate(format!("C18|committer_cannot_apply_own_psk_commit|{}", ek(&format!("{e:?}"))), format!("member {c}: {e:?}"));
